@@ -77,6 +77,7 @@ type queue struct {
 	nonblock bool
 	total    int // bytes ever written
 	taken    int // bytes ever read
+	maxRead  int // > 0: a Read hands over at most this many bytes (a transport that fragments frames)
 }
 
 func newQueue() *queue { q := &queue{}; q.cond = sync.NewCond(&q.mu); return q }
@@ -86,6 +87,9 @@ func (q *queue) Write(p []byte) (int, error) {
 	defer q.mu.Unlock()
 	if q.closed {
 		return 0, io.ErrClosedPipe
+	}
+	if len(q.buf) > 48<<20 {
+		return 0, errors.New("harness transport: more than 48 MiB queued and unread")
 	}
 	q.buf = append(q.buf, p...)
 	q.total += len(p)
@@ -104,6 +108,9 @@ func (q *queue) Read(p []byte) (int, error) {
 			return 0, errWouldBlock
 		}
 		q.cond.Wait()
+	}
+	if q.maxRead > 0 && len(p) > q.maxRead {
+		p = p[:q.maxRead]
 	}
 	n := copy(p, q.buf)
 	q.buf = q.buf[n:]
@@ -177,6 +184,10 @@ func patBytes(seed, p0, n int) []byte {
 func pick(r *Rng, xs ...int) int { return xs[r.Intn(len(xs))] }
 
 func writeSize(r *Rng) int {
+	if r.Intn(45) == 0 {
+		// one Write call of 64 KiB and more (MConnection flushes a full 64 KiB buffer at once)
+		return pick(r, 65535, 65536, 65537, 2*65536, 70000)
+	}
 	switch r.Intn(10) {
 	case 0:
 		return pick(r, 0, 1, 1, 2)
@@ -283,7 +294,20 @@ func (d *direction) fail(f string, a ...interface{}) { d.bad = append(d.bad, fmt
 func (d *direction) write(c *Ctx, n int) {
 	data := patBytes(d.seed, len(d.written), n)
 	before := d.q.total
-	wn, err := d.tx.Write(data)
+	var wn int
+	var err error
+	wdone := make(chan struct{})
+	go func() {
+		wn, err = d.tx.Write(data)
+		close(wdone)
+	}()
+	select {
+	case <-wdone:
+	case <-time.After(30 * time.Second):
+		d.fail("class=write-hang: Write(%d bytes) did not return within 30 s", n)
+		d.q.Close() // makes the transport refuse further frames so that the writer ends
+		<-wdone
+	}
 	grew := d.q.total - before
 	c.Stats.Count("write-size:" + sizeBucket(n))
 	if err != nil || wn != n {
@@ -498,6 +522,18 @@ func streamCase(c *Ctx, idx int) {
 	c.Stats.Count("stream-established-by:" + how)
 	ab.setNonblock(true)
 	ba.setNonblock(true)
+	// the transport may hand a sealed frame over in pieces (TCP segmentation): the delivered stream
+	// must not depend on it
+	if c.Rng.Chance(45) {
+		m := pick(c.Rng, 1, 7, 512, 1041, 1+c.Rng.Intn(1100))
+		ab.mu.Lock()
+		ab.maxRead = m
+		ab.mu.Unlock()
+		ba.mu.Lock()
+		ba.maxRead = m
+		ba.mu.Unlock()
+		c.Stats.Count("transport:fragmenting-reads")
+	}
 	mk := func(name string, tx, rx *connection.SecretConnection, q *queue) *direction {
 		d := &direction{name: name, tx: tx, rx: rx, q: q, seed: c.Rng.Intn(256)}
 		_, sn, k, _ := tx.VerifState()
@@ -507,7 +543,8 @@ func streamCase(c *Ctx, idx int) {
 	dirs := []*direction{mk("A->B", a, b, ab), mk("B->A", b, a, ba)}
 	nops := 3 + c.Rng.Intn(14)
 	wantTamper := c.Rng.Chance(35)
-	for i := 0; i < nops; i++ {
+	broken := func() bool { return len(dirs[0].bad)+len(dirs[1].bad) > 0 }
+	for i := 0; i < nops && !broken(); i++ {
 		d := dirs[c.Rng.Intn(2)]
 		switch {
 		case wantTamper && c.Rng.Chance(25) && d.tamper(c):
@@ -519,6 +556,9 @@ func streamCase(c *Ctx, idx int) {
 		}
 	}
 	for _, d := range dirs {
+		if broken() {
+			break // the harness's own frame bookkeeping no longer matches the wire: report, do not go on
+		}
 		if wantTamper && d.tamper(c) {
 			wantTamper = false
 		}
